@@ -180,6 +180,18 @@ def check_c09(idx: Index, tier: str, res: Result) -> None:
               "a new SdSimulation is built on every step: the memoised history and the settings applied by earlier steps are lost",
               key="STEP/run_scenario_step/keep-simulation")
     ret = [n for n in walk_no_nested(rss.node) if isinstance(n, ast.Return)]
+    # `return {}` where there is no scenario to step is what the comprehension over no scenarios gives as well
+
+    stepped = {x.id for r_ in ret for c_ in ast.walk(r_) if isinstance(c_, ast.comprehension) for x in ast.walk(c_.iter) if isinstance(x, ast.Name)}
+
+    def nothing_to_step(a_, t_):
+        if isinstance(a_, ast.Compare) and len(a_.ops) == 1 and isinstance(a_.left, ast.Call) and call_name(a_.left) == "len" and a_.left.args \
+                and isinstance(a_.left.args[0], ast.Name) and a_.left.args[0].id in stepped \
+                and isinstance(a_.comparators[0], ast.Constant) and a_.comparators[0].value == 0:
+            return (isinstance(a_.ops[0], ast.Eq) and t_) or (isinstance(a_.ops[0], (ast.Gt, ast.NotEq)) and not t_)
+        return isinstance(a_, ast.Name) and a_.id in stepped and not t_
+    ret = [r_ for r_ in ret if not (r_.value is not None and ((isinstance(r_.value, ast.Dict) and not r_.value.keys) or (isinstance(r_.value, ast.Call) and call_name(r_.value) == "dict" and not r_.value.args))
+                                    and under_condition(rss.node, r_, nothing_to_step))]
     ok = len(ret) == 1 and "result.to_dict()" in src(ret[0].value)
     res.check("STEP", "the step result is the frame's dict", ok, rss.loc(), rss.qual, norm_stmt(ret[0])[:100] if ret else "", "the step result is not result.to_dict()",
               key="STEP/run_scenario_step/result")
@@ -189,7 +201,7 @@ def check_c09(idx: Index, tier: str, res: Result) -> None:
     full = []
     ok = True
     for lp in [n for n in ast.walk(sr.node) if isinstance(n, ast.For)]:
-        it = lp.iter
+        it = deref(sr.node, lp.iter)             # logged = ...["results_log"].items(); for step, step_result in logged
         if not (isinstance(it, ast.Call) and call_name(it) == "items" and isinstance(lp.target, ast.Tuple) and len(lp.target.elts) == 2
                 and all(isinstance(x, ast.Name) for x in lp.target.elts)):
             continue
@@ -208,7 +220,7 @@ def check_c09(idx: Index, tier: str, res: Result) -> None:
     ok = ok and bool(full)
     res.check("STEP", "session_results re-indexes by (manager, scenario, equation, step)", ok, sr.loc(), sr.qual,
               src(full[0]) if full else "", "session_results reads %s" % sorted({src(n) for n in full}), key="STEP/session_results/reindex")
-    lp = [n for n in ast.walk(sr.node) if isinstance(n, ast.For) and "results_log" in src(n.iter)]
+    lp = [n for n in ast.walk(sr.node) if isinstance(n, ast.For) and "results_log" in src(deref(sr.node, n.iter))]
     ok = len(lp) == 1 and src(lp[0].target) in ("(step, step_result)", "step, step_result")
     res.check("STEP", "session_results iterates the results log", ok, sr.loc(), sr.qual, src(lp[0].iter) if lp else "", "session_results does not iterate results_log.items()",
               key="STEP/session_results/loop")
@@ -303,6 +315,12 @@ def check_c09(idx: Index, tier: str, res: Result) -> None:
               "POST /run calls run_scenarios with %s" % kw, key="PASSTHROUGH/_run_resource/args")
     fl = idx.func(SERVER, "BptkServer._flat_session_results_resource")
     ok = any(call_name(c) == "_session_results_resource" and [src(a) for a in c.args] == ["instance_uuid", "True"] for c in iter_calls(fl.node))
+    if not ok:
+        # ... or the two endpoints share a body (seen written out here): it asks the session for its flat results and serves them untouched
+        own = [c for c in iter_calls(fl.node) if call_name(c) == "session_results"]
+        if own and all(any(k.arg == "flat" and isinstance(k.value, ast.Constant) and k.value.value is True for k in c.keywords) for c in own):
+            _passthrough(res, fl, API, SERIALISERS)
+            ok = True
     res.check("PASSTHROUGH", "flat session results delegate to session results", ok, fl.loc(), fl.qual, "self._session_results_resource(instance_uuid, True)",
               "the flat results endpoint does not delegate", key="PASSTHROUGH/_flat_session_results_resource")
 
@@ -340,8 +358,11 @@ def check_c09(idx: Index, tier: str, res: Result) -> None:
 
 def _passthrough(res: Result, fi: FuncInfo, api: Set[str], serialisers: Set[str]) -> int:
     """Variables assigned from the bptk API are only appended, serialised, tested for None or returned."""
-    assigns = [n for n in walk_no_nested(fi.node) if isinstance(n, ast.Assign) and isinstance(n.targets[0], ast.Name)
-               and isinstance(n.value, ast.Call) and call_name(n.value) in api]
+    def from_api(v) -> bool:
+        if isinstance(v, ast.IfExp):                       # r = api(a, b) if c else api()
+            return from_api(v.body) and from_api(v.orelse)
+        return isinstance(v, ast.Call) and call_name(v) in api
+    assigns = [n for n in walk_no_nested(fi.node) if isinstance(n, ast.Assign) and isinstance(n.targets[0], ast.Name) and from_api(n.value)]
     apps = [c for c in iter_calls(fi.node) if call_name(c) == "append" and c.args and isinstance(c.args[0], ast.Call) and call_name(c.args[0]) in api]
     names = {n.targets[0].id for n in assigns} | {c.func.value.id for c in apps if isinstance(c.func.value, ast.Name)}
     if not names:
@@ -356,6 +377,8 @@ def _passthrough(res: Result, fi: FuncInfo, api: Set[str], serialisers: Set[str]
             p = par.get(id(n))
             if isinstance(p, ast.Call) and (call_name(p) in serialisers):
                 continue
+            if isinstance(p, ast.Call) and call_name(p) in ("len", "isinstance", "type") and isinstance(p.func, ast.Name):
+                continue                                   # looked at (a log line, an assertion), not changed
             if isinstance(p, ast.Attribute) and p.attr == "append":
                 continue
             if isinstance(p, ast.Compare) and all(isinstance(c, ast.Constant) and c.value is None for c in p.comparators):
